@@ -30,6 +30,7 @@ CHECKS["C01"] = {
         J("identity", "c01", "TestIdentity", 3000, 60000, 12),
         J("scale", "c01", "TestScale", 6, 60, 4),
         J("history", "c01", "TestPostStartHistory", 800, 20000, 4, steps=30),
+        J("known", "c01", "TestKnownStaleEarlyReferenceAfterFailedCreation", None, None),
     ],
     "assumptions": [
         "a *T pointer field cannot hold a substitute object, so the wrapping post-processor only wraps node variants that no pointer-typed field references",
@@ -103,6 +104,8 @@ CHECKS["C03"] = {
         J("exh3", "c03", "TestExhaustive3", None, None, 16, tiers=["thorough"]),
         J("exh3all", "c03", "TestExhaustive3All", None, None, 16, tiers=["thorough"], timeout={"thorough": 3600}),
         J("known", "c03", "TestKnownRetryAfterRefusedLazyCreation", None, None),
+        J("known-stale", "c03", "TestKnownStaleEarlyReferenceAfterFailedCreation", None, None),
+        J("retryinit", "c03", "TestRetryAfterInitFailure", 1500, 40000, 4),
     ],
     "assumptions": [
         "a *T pointer field cannot hold a substitute, so only components consumed through interfaces are wrapped",
